@@ -234,6 +234,11 @@ func (f *InterestNameField) GenReadFrom() (string, error) {
 	g.printlnf("{")
 
 	g.execTemplS("NameEncodeInto", `
+		if uint64(l) > uint64(reader.Length()-reader.Pos()) {
+			// the announced length comes from the wire: never allocate more than the input can still supply
+			err = io.ErrUnexpectedEOF
+			break
+		}
 		value.{{.Name}} = make(enc.Name, l/2+1)
 		startName := reader.Pos()
 		endName := startName + int(l)
